@@ -1659,6 +1659,19 @@ impl RecoverySetGenerator {
                 self.add_pred(part_regex, start);
             }
         }
+        // rules that are only reachable from such a part are used as well
+        let mut change = true;
+        while change {
+            let count = sema.used.len();
+            for rule in file.rule_decls(cst) {
+                if sema.used.contains(&rule.syntax())
+                    && let Some(regex) = rule.regex(cst)
+                {
+                    UsageValidator::set_regex(cst, sema, regex);
+                }
+            }
+            change = count != sema.used.len();
+        }
         for rule in file.rule_decls(cst) {
             if sema.used.contains(&rule.syntax())
                 && let Some(regex) = rule.regex(cst)
